@@ -250,6 +250,16 @@ def case_blocked_select_then_shutdown(env):
             outcome(lambda: f.read(1))]
 
 
+def case_blocked_read_then_shutdown_wr(env):
+    # a write-side shutdown does not wake a blocked reader; data sent by
+    # the peer afterwards is still received
+    s = env.connect()
+    f = s.makefile('rb', 0)
+    env.later(0.1, lambda: s.shutdown(env.socket.SHUT_WR))
+    env.later(0.4, lambda: env.server_send(b'late'))
+    return [outcome(lambda: f.read(4)), outcome(lambda: s.send(b'x'))]
+
+
 def case_send_after_shutdown(env):
     s = env.connect()
     s.shutdown(env.socket.SHUT_RDWR)
@@ -307,7 +317,8 @@ def case_close_releases_only_with_file(env):
 CASES = [case_refused, case_read_data_short, case_read_eof,
          case_read_after_file_close, case_read_after_rst,
          case_select_timeout, case_blocked_read_then_shutdown,
-         case_blocked_select_then_shutdown, case_send_after_shutdown,
+         case_blocked_select_then_shutdown,
+         case_blocked_read_then_shutdown_wr, case_send_after_shutdown,
          case_send_after_close, case_shutdown_unconnected,
          case_first_send_after_peer_close,
          case_send_then_fin_seen_by_server,
